@@ -22,10 +22,12 @@ structure Cfg where
   /-- the handler's SendMsg / RecvMsg return the context's status once the context has ended, not
   io.EOF (fix 3d4f9fa) -/
   srvCtxErr : Bool
+  /-- `startStream` gives the handler a context without the caller's outgoing metadata (fix 8cf1112) -/
+  clearOutgoing : Bool
   deriving DecidableEq, Repr
 
-def Cfg.current : Cfg := ⟨true, true, true, true⟩
-def Cfg.legacy : Cfg := ⟨false, false, false, false⟩
+def Cfg.current : Cfg := ⟨true, true, true, true, true⟩
+def Cfg.legacy : Cfg := ⟨false, false, false, false, false⟩
 
 /-- Message objects live in a heap: `cells` maps a reference to the payload stored there (newest
 binding first), `next` is the next fresh reference. -/
